@@ -110,6 +110,13 @@ def describe_place(body, pl, depth=30):
                     return Val("agg", rv.get("variant") or rv.get("ak"), [describe(body, o, depth - 1) for o in rv["ops"]])
                 if rv["k"] == "discr":
                     return Val("discr", "", [describe_place(body, rv["place"], depth - 1)])
+    # field of a freshly built tuple / struct aggregate: look through to the operand
+    if len(pl["p"]) == 1 and isinstance(pl["p"][0], dict) and "f" in pl["p"][0] and (pl["l"] > body.arg_count or pl["l"] == 0):
+        sd = body.single_def(pl["l"])
+        if sd is not None and sd[1] != "term" and sd[2]["k"] == "agg" and sd[2].get("ak") in ("tuple", "adt", "closure"):
+            idx = pl["p"][0]["f"]
+            if idx < len(sd[2]["ops"]):
+                return describe(body, sd[2]["ops"][idx], depth - 1)
     rp = body.root_place(pl)
     return Val("place", place_str(rp))
 
